@@ -25,7 +25,9 @@ def main():
         print("ERR", err); return
     for jr in out["results"]:
         print(json.dumps({k: jr.get(k) for k in ("paths", "complete", "error", "outcomes", "covers", "wall_s", "notes", "undischarged")})[:600])
-        for v in (jr.get("violations") or [])[:3]:
+        if jr.get("global_writes"):
+            print("   GW", json.dumps(jr["global_writes"])[:1500])
+        for v in (jr.get("violations") or [])[:int(os.environ.get("NV", "3"))]:
             print("   VIOL", v["kind"], v["id"], v.get("pos"), json.dumps(v["model"])[:300], "params=", json.dumps(jr["params"]))
     print("wall", wall)
 main()
